@@ -573,3 +573,25 @@ Proof.
   intros Wf H E. destruct (driver_refines_observer cf sched st tr Wf H) as [p [Hp R]].
   exists p. split; [exact Hp|]. rewrite (r_closed _ _ _ R), E. reflexivity.
 Qed.
+
+(* the clauses of C17 for a finished run of the driver, with the kept databases spelled out: every file's database was created,
+   every session opened was closed, and the database was dropped exactly once - unless it is kept (a failed file under
+   --keep-db-on-failure; every database after a refused connection), in which case it was not dropped at all *)
+Theorem driver_finished_run_cleans_up cf sched st tr :
+  wf_cfg cf -> drun cf (dst0 cf) sched = (st, tr) -> d_phase st = DEnd ->
+  (forall db s, In (PConnect db s) tr -> In (PClose db s) tr) /\
+  forall f, In f (c_files cf) ->
+    In (PCreate (f_db f)) tr /\
+    ((mem (f_db f) (kept_of cf st) = true /\ ~ In (PDrop (f_db f)) tr) \/
+     (mem (f_db f) (kept_of cf st) = false /\ count_occ pev_eq_dec tr (PDrop (f_db f)) = 1%nat)).
+Proof.
+  intros Wf H E. destruct (driver_refines_observer cf sched st tr Wf H) as [p [Hp R]].
+  assert (Hc : closed_ p = true) by (rewrite (r_closed _ _ _ R), E; reflexivity).
+  split.
+  - exact (proj2 (all_released _ _ _ Hp Hc)).
+  - intros f Hf.
+    assert (Hcr : In (PCreate (f_db f)) tr).
+    { apply (i_created _ _ _ (Inv_reach _ _ _ Hp)). pose proof (r_created _ _ _ R) as Rc. rewrite E in Rc. rewrite Rc.
+      apply mem_In. unfold dbs_of. apply in_map. exact Hf. }
+    split; [exact Hcr|]. exact (dropped_exactly_once _ _ _ Hp Hc _ Hcr).
+Qed.
